@@ -34,16 +34,16 @@
 use cascette_crypto::md5::FileDataId;
 use cascette_crypto::{ContentKey, EncodingKey};
 use cascette_formats::CascFormat;
-use cascette_formats::archive::{ArchiveGroup, ArchiveGroupBuilder, ArchiveGroupEntry, ArchiveIndex, ArchiveIndexBuilder};
+use cascette_formats::archive::{ArchiveBuilder, ArchiveGroup, ArchiveGroupBuilder, ArchiveGroupEntry, ArchiveIndex, ArchiveIndexBuilder};
 use cascette_formats::archive::IndexEntry;
-use cascette_formats::blte::{BlteBuilder, BlteFile, CompressionMode};
+use cascette_formats::blte::{BlteBuilder, BlteFile, BlteHeader, ChunkData, CompressionMode};
 use cascette_formats::bpsv::{BpsvBuilder, BpsvDocument, BpsvField, BpsvType, BpsvValue};
 use cascette_formats::config::{BuildConfig, CdnConfig, KeyringConfig, PatchConfig, PatchEntry as PatchCfgEntry, ProductConfig};
 use cascette_formats::download::{DownloadManifest, DownloadManifestBuilder};
 use cascette_formats::encoding::{CKeyEntryData, EKeyEntryData, EncodingBuilder, EncodingFile};
-use cascette_formats::espec::ESpec;
+use cascette_formats::espec::{BlockChunk, BlockSizeSpec, ESpec};
 use cascette_formats::install::{InstallManifest, InstallManifestBuilder, TagType};
-use cascette_formats::patch_archive::{PatchArchive, PatchArchiveBuilder};
+use cascette_formats::patch_archive::{FilePatch, PatchArchive, PatchArchiveBuilder, PatchArchiveEncodingInfo, PatchFileEntry};
 use cascette_formats::patch_index::{PatchIndex, PatchIndexBuilder, PatchIndexEntry};
 use cascette_formats::root::{ContentFlags, LocaleFlags, RootBuilder, RootFile, RootVersion};
 use cascette_formats::size::{SizeManifest, SizeManifestBuilder};
@@ -1337,6 +1337,10 @@ impl Ctx {
                 }
                 _ => self.s.line(line, "bad-op"),
             },
+            ["bp", fmt, rest @ ..] => {
+                let r = self.bp_resp(fmt, rest, line);
+                self.s.line(line, &r);
+            }
             ["o", fmt, h] => match unhex(h) {
                 Some(b) if FORMATS.contains(fmt) => {
                     if let Some(out) = self.oracle(fmt, &b, line.to_string(), false) {
@@ -2298,6 +2302,9 @@ fn main() {
     framed_root(&mut cx, &mut rng, th);
     framed_pindex(&mut cx, &mut rng, th);
     framed_tvfs_tables(&mut cx, &mut rng, th);
+    // (h) builder programs given by parameters (after everything else: the earlier sections keep
+    // their random streams)
+    builder_programs(&mut cx, &mut rng, th);
     cx.s.finish();
 }
 
@@ -2730,5 +2737,1612 @@ fn framed_tvfs_tables(cx: &mut Ctx, rng: &mut Rng, th: bool) {
         let req = format!("tc {fl} {}", hex(&d));
         cx.run_req(&req);
         cx.s.tally(if n % es == 0 { "tvfs-cft:no-slack" } else { "tvfs-cft:slack" });
+    }
+}
+
+// ---------------------------------------------------------------------------------------------
+// `bp` lines — builder programs given by PARAMETERS, so that a 65 536-chunk BLTE, a 2 731-file TVFS
+// or a 65 537-entry manifest is a forty-byte request line that replays on its own.
+//
+//   bp install <new|hex of a V1/V2 manifest> <ops>     InstallManifestBuilder::{new, from_manifest}
+//        then ops (`-` or comma list: af<id> add_file | aw<id>.<tag#> add_file_with_tags |
+//        rf<i> remove_file | at<id>.<type> add_tag | rt<tag#> remove_tag | as<i>.<tag#> associate |
+//        ds<i>.<tag#> remove_file_from_tag) then build -> serialise; answered
+//        `ok v= t= e= n=<len> h=<fnv64>` / `err`, compared with the MODEL (Model/SerialBuilders);
+//        O: parse(bytes) is the reference value of the program (version and V2 header fields of the
+//        source kept, every entry of a V2 manifest carries a type byte, tags/entries as edited)
+//   bp download <new:<ver>:<cks>:<fs>:<bp>|hex> <ops>   DownloadManifestBuilder likewise (af<id>.<prio>
+//        | rf<i> | rk<id> | at<id>.<type> | rt<tag#> | as<i>.<tag#> | ds<i>.<tag#> | uk<i>.<id> |
+//        us<i>.<id> | up<i>.<prio> | sf<i>.<hex>); oracle-only (`-`)
+//   bp blte <c|d|x> <n|z|4> <chunks> <len>             BlteBuilder: add_chunk x n | add_data with chunk
+//        size len | 40-byte-row table; answered `ok hs=<header_size> tbl=<flag byte + u24 count>`,
+//        compared with C01's model; O: the parsed file has the program's chunks
+//   bp tvfs <flags> <nspecs> <speclen> <files>          TvfsBuilder; answered `ok es= cft= w= last=`
+//        (container entry size, table size, offset width, CFT offset stored in the LAST file's span),
+//        compared with C03's Model/TvfsTables.layout; O: every path resolves path -> VFS span ->
+//        container record to its OWN keys and sizes
+//   bp installw|downloadw|sizew|rootw|aidxw|agroupw|encodingw|parchivew|pindexw|zbsw|bpsvw|especw|
+//      archivew <numbers…>                              count / width boundary families, oracle-only
+// Every id-derived datum (key, path, size, tag name) is a function of the id.
+
+fn dkey(id: u64) -> [u8; 16] {
+    let mut k = [0u8; 16];
+    k[..4].copy_from_slice(&((id.wrapping_mul(2_654_435_761) & 0xFFFF_FFFF) as u32).to_be_bytes());
+    for (j, x) in k.iter_mut().enumerate().skip(4) {
+        *x = (id.wrapping_mul(17).wrapping_add(29 * j as u64 + 3) & 0xFF) as u8;
+    }
+    k
+}
+
+fn dpath(id: u64) -> String {
+    format!("d\\f{id}.bin")
+}
+
+fn dsize32(id: u64) -> u32 {
+    match id % 5 {
+        0 => 0,
+        1 => u32::MAX,
+        _ => (id.wrapping_mul(2_654_435_761) & 0xFFFF_FFFF) as u32,
+    }
+}
+
+fn dsize40(id: u64) -> u64 {
+    match id % 6 {
+        0 => 0,
+        1 => 0xFF_FFFF_FFFF,
+        2 => 0x1_0000_0000,
+        3 => 0xFFFF_FFFF,
+        _ => id.wrapping_mul(0x9E37_79B9_7F4A_7C15) & 0xFF_FFFF_FFFF,
+    }
+}
+
+fn dtag(id: u64) -> String {
+    format!("T{id}")
+}
+
+fn first_diff(a: &str, b: &str) -> String {
+    let at = a.bytes().zip(b.bytes()).position(|(x, y)| x != y).unwrap_or(a.len().min(b.len()));
+    let cut = |s: &str| s.chars().skip(at.saturating_sub(40)).take(120).collect::<String>();
+    format!("want …{}… got …{}…", cut(a), cut(b))
+}
+
+/// hand-framed install manifest (not through the builder): tags T<100+j>, files d\f<200+i>.bin,
+/// file i in tag j iff (i + 2j) % 3 == 0, V2: type byte (37 i + 5) & 0xFF and header extension
+/// (content_key_size 20, entry_count_v2 n + 3, unknown 1)
+fn frame_install(ver: u8, nt: usize, nf: usize) -> Vec<u8> {
+    let mut d = vec![b'I', b'N', ver, 16];
+    d.extend_from_slice(&(nt as u16).to_be_bytes());
+    d.extend_from_slice(&(nf as u32).to_be_bytes());
+    if ver >= 2 {
+        d.push(20);
+        d.extend_from_slice(&(nf as u32 + 3).to_be_bytes());
+        d.push(1);
+    }
+    let types = [1u16, 2, 3, 0x10, 0x4000, 0x8000];
+    for j in 0..nt {
+        let mut mask = vec![0u8; nf.div_ceil(8)];
+        for i in 0..nf {
+            if (i + 2 * j) % 3 == 0 {
+                mask[i / 8] |= 0x80 >> (i % 8);
+            }
+        }
+        d.extend(tag_bytes(dtag(100 + j as u64).as_bytes(), types[j % types.len()], &mask));
+    }
+    for i in 0..nf {
+        d.extend_from_slice(dpath(200 + i as u64).as_bytes());
+        d.push(0);
+        d.extend_from_slice(&dkey(200 + i as u64));
+        d.extend_from_slice(&dsize32(200 + i as u64).to_be_bytes());
+        if ver >= 2 {
+            d.push(((37 * i + 5) & 0xFF) as u8);
+        }
+    }
+    d
+}
+
+/// hand-framed download manifest V1-V3: tags T<100+j>, entries keyed dkey(200+i)
+fn frame_download(ver: u8, hc: u8, fs: u8, bp: i8, nt: usize, nf: usize) -> Vec<u8> {
+    let mut d = vec![b'D', b'L', ver, 16, hc];
+    d.extend_from_slice(&(nf as u32).to_be_bytes());
+    d.extend_from_slice(&(nt as u16).to_be_bytes());
+    if ver >= 2 {
+        d.push(fs);
+    }
+    if ver >= 3 {
+        d.push(bp as u8);
+        d.extend_from_slice(&[0, 0, 0]);
+    }
+    let efs = if ver >= 2 { fs as usize } else { 0 };
+    for i in 0..nf {
+        let id = 200 + i as u64;
+        d.extend_from_slice(&dkey(id));
+        d.extend_from_slice(&dsize40(id).to_be_bytes()[3..]);
+        d.push([0u8, 1, 0xFF, 0x80, 0x7F, 5][i % 6]);
+        if hc != 0 {
+            d.extend_from_slice(&(dsize32(id) ^ 0x5A5A_5A5A).to_be_bytes());
+        }
+        d.extend((0..efs).map(|k| (i * 3 + k + 1) as u8));
+    }
+    let types = [1u16, 2, 3, 0x10, 0x4000, 0x8000];
+    for j in 0..nt {
+        let mut mask = vec![0u8; nf.div_ceil(8)];
+        for i in 0..nf {
+            if (i + 2 * j) % 3 == 0 {
+                mask[i / 8] |= 0x80 >> (i % 8);
+            }
+        }
+        d.extend(tag_bytes(dtag(100 + j as u64).as_bytes(), types[j % types.len()], &mask));
+    }
+    d
+}
+
+/// reference value of an install / download builder program: tags (name, type, members) + files
+#[derive(Clone, Debug, PartialEq)]
+struct RefTags {
+    tags: Vec<(String, u16, Vec<bool>)>,
+}
+
+impl RefTags {
+    fn add_file(&mut self) {
+        for t in &mut self.tags {
+            t.2.push(false);
+        }
+    }
+    fn remove_file(&mut self, i: usize) {
+        for t in &mut self.tags {
+            t.2.remove(i);
+        }
+    }
+    fn render(&self) -> String {
+        self.tags.iter().map(|t| format!("{}:{:x}:{}", t.0, t.1, t.2.iter().map(|b| if *b { '1' } else { '0' }).collect::<String>())).collect::<Vec<_>>().join(" ")
+    }
+}
+
+fn mask_members(mask: &[u8], n: usize) -> Vec<bool> {
+    (0..n).map(|i| mask.get(i / 8).is_some_and(|b| b & (0x80 >> (i % 8)) != 0)).collect()
+}
+
+fn split2(t: &str) -> Option<(&str, &str)> {
+    t.split_once('.')
+}
+
+fn nums(toks: &[&str]) -> Option<Vec<u64>> {
+    toks.iter().map(|t| t.parse::<u64>().ok()).collect()
+}
+
+impl Ctx {
+    fn bp_fail(&mut self, fmt: &str, what: &str, msg: String, line: &str) {
+        self.s.oracle_fail(&format!("{fmt}-program-{what}"), &format!("{fmt} builder program: {}", msg.chars().take(500).collect::<String>()), &[line.to_string()]);
+        self.s.tally(&format!("{fmt}:program:{what}"));
+    }
+
+    /// the serialised output of a builder program also goes through parse -> build -> parse -> build
+    /// (and the format's from_* constructor) like every other accepted input
+    fn bp_fixed_point(&mut self, fmt: &str, bytes: &[u8], line: &str) {
+        let _ = self.oracle(fmt, bytes, line.to_string(), false);
+    }
+
+    fn bp_resp(&mut self, fmt: &str, a: &[&str], line: &str) -> String {
+        let r = match (fmt, a) {
+            ("install", [src, ops]) => self.bp_install(src, ops, line),
+            ("download", [src, ops]) => self.bp_download(src, ops, line),
+            ("blte", [via, mode, n, len]) => match (n.parse::<usize>().ok(), len.parse::<usize>().ok()) {
+                (Some(n), Some(len)) if n >= 1 && len >= 1 && n < 0x100_0000 && ["c", "d", "x"].contains(via) && ["n", "z", "4"].contains(mode) => self.bp_blte(via, mode, n, len, line),
+                _ => None,
+            },
+            ("tvfs", rest) => match nums(rest).as_deref() {
+                Some(&[flags, ns, sl, n]) if flags < 8 && ns * (sl + 1) < 1 << 24 && n < 1 << 24 => self.bp_tvfs(flags as u32, ns as usize, sl as usize, n as usize, line),
+                _ => None,
+            },
+            (_, rest) => match nums(rest) {
+                Some(v) => self.bp_width(fmt, &v, line),
+                None => None,
+            },
+        };
+        r.unwrap_or_else(|| {
+            self.s.case(None);
+            "bad-op".to_string()
+        })
+    }
+
+    // ---- install -----------------------------------------------------------------------------
+    fn bp_install(&mut self, src: &str, ops: &str, line: &str) -> Option<String> {
+        let source = if src == "new" { None } else { Some(unhex(src)?) };
+        let ops: Vec<&str> = if ops == "-" { vec![] } else { ops.split(',').collect() };
+        // every op must be well formed (a malformed line is bad-op on both sides)
+        for o in &ops {
+            if o.len() < 3 {
+                return None;
+            }
+            let (k, r) = o.split_at(2);
+            let ok = match k {
+                "af" | "rf" | "rt" => r.parse::<u64>().is_ok(),
+                "aw" | "at" | "as" | "ds" => split2(r).is_some_and(|(x, y)| x.parse::<u64>().is_ok() && y.parse::<u64>().is_ok()),
+                _ => false,
+            };
+            if !ok {
+                return None;
+            }
+        }
+        let parsed = match &source {
+            None => None,
+            Some(b) => match catch(AssertUnwindSafe(|| InstallManifest::parse(b))) {
+                Ok(Ok(m)) => Some(m),
+                _ => {
+                    self.s.case(None);
+                    return Some("err".into());
+                }
+            },
+        };
+        // reference state
+        let (ver, v2) = match &parsed {
+            Some(m) => (m.header.version, if m.header.version >= 2 { Some((m.header.content_key_size, m.header.entry_count_v2, m.header.v2_unknown)) } else { None }),
+            None => (1, None),
+        };
+        let mut files: Vec<(String, [u8; 16], u32, Option<u8>)> = parsed.as_ref().map_or(vec![], |m| m.entries.iter().map(|e| (e.path.clone(), *e.content_key.as_bytes(), e.file_size, e.file_type)).collect());
+        let mut rt = RefTags { tags: parsed.as_ref().map_or(vec![], |m| m.tags.iter().map(|t| (t.name.clone(), t.tag_type as u16, mask_members(&t.bit_mask, m.entries.len()))).collect()) };
+        let from = match &parsed {
+            Some(m) => format!("from-v{}", m.header.version),
+            None => "new".to_string(),
+        };
+        let run = catch(AssertUnwindSafe(|| -> Result<InstallManifest, String> {
+            let mut b = match &parsed {
+                Some(m) => InstallManifestBuilder::from_manifest(m),
+                None => InstallManifestBuilder::new(),
+            };
+            for o in &ops {
+                let (k, r) = o.split_at(2);
+                let one = |t: &str| t.parse::<u64>().unwrap_or(0);
+                let two = |t: &str| split2(t).map(|(x, y)| (one(x), one(y))).unwrap_or((0, 0));
+                match k {
+                    "af" => {
+                        let id = one(r);
+                        b = b.add_file(dpath(id), ContentKey::from_bytes(dkey(id)), dsize32(id));
+                        files.push((dpath(id), dkey(id), dsize32(id), None));
+                        rt.add_file();
+                    }
+                    "aw" => {
+                        let (id, tj) = two(r);
+                        if let Some(name) = rt.tags.get(tj as usize).map(|t| t.0.clone()) {
+                            b = b.add_file_with_tags(dpath(id), ContentKey::from_bytes(dkey(id)), dsize32(id), &[name.as_str()]).map_err(|e| format!("add_file_with_tags: {e}"))?;
+                            files.push((dpath(id), dkey(id), dsize32(id), None));
+                            rt.add_file();
+                            rt.tags[tj as usize].2[files.len() - 1] = true;
+                        }
+                    }
+                    "rf" => {
+                        let i = one(r) as usize;
+                        if i < files.len() {
+                            b = b.remove_file(i).map_err(|e| format!("remove_file: {e}"))?;
+                            files.remove(i);
+                            rt.remove_file(i);
+                        }
+                    }
+                    "at" => {
+                        let (id, ty) = two(r);
+                        if let Some(tt) = u16::try_from(ty).ok().and_then(TagType::from_u16) {
+                            if !rt.tags.iter().any(|t| t.0 == dtag(id)) {
+                                b = b.add_tag(dtag(id), tt);
+                                rt.tags.push((dtag(id), ty as u16, vec![false; files.len()]));
+                            }
+                        }
+                    }
+                    "rt" => {
+                        let tj = one(r) as usize;
+                        if tj < rt.tags.len() {
+                            b = b.remove_tag(&rt.tags[tj].0.clone()).map_err(|e| format!("remove_tag: {e}"))?;
+                            rt.tags.remove(tj);
+                        }
+                    }
+                    "as" | "ds" => {
+                        let (i, tj) = two(r);
+                        let (i, tj) = (i as usize, tj as usize);
+                        if i < files.len() && tj < rt.tags.len() {
+                            let name = rt.tags[tj].0.clone();
+                            b = if k == "as" { b.associate_file_with_tag(i, &name) } else { b.remove_file_from_tag(i, &name) }.map_err(|e| format!("{k}: {e}"))?;
+                            rt.tags[tj].2[i] = k == "as";
+                        }
+                    }
+                    _ => {}
+                }
+            }
+            b.build().map_err(|e| format!("build: {e}"))
+        }));
+        self.s.tally(&format!("install:program:{from}"));
+        let m = match run {
+            Err(p) => {
+                self.s.case(None);
+                self.bp_fail("install", &format!("panics-{from}"), format!("panic: {p}"), line);
+                return Some("panic".into());
+            }
+            Ok(Err(e)) => {
+                self.s.case(None);
+                self.bp_fail("install", &format!("refused-{from}"), format!("a valid program is refused: {e}"), line);
+                return Some("err".into());
+            }
+            Ok(Ok(m)) => m,
+        };
+        let Ok(bytes) = m.build() else {
+            self.s.case(None);
+            self.bp_fail("install", &format!("not-serialisable-{from}"), "InstallManifest::build fails on the builder's value".into(), line);
+            return Some("err".into());
+        };
+        self.s.case(Some(&format!("bp-install:{:016x}", fnv64(line.as_bytes()))));
+        // expected content
+        let want_files: Vec<String> = files.iter().map(|f| format!("{:?}:{}:{}:{:?}", f.0, hex(&f.1), f.2, if ver >= 2 { Some(f.3.unwrap_or(0)) } else { f.3 })).collect();
+        let want = format!("v={ver} v2={v2:?} files=[{}] tags=[{}]", want_files.join(" "), rt.render());
+        match catch(AssertUnwindSafe(|| InstallManifest::parse(&bytes))) {
+            Ok(Ok(p)) => {
+                let pv2 = if p.header.version >= 2 { Some((p.header.content_key_size, p.header.entry_count_v2, p.header.v2_unknown)) } else { None };
+                let got_files: Vec<String> = p.entries.iter().map(|e| format!("{:?}:{}:{}:{:?}", e.path, hex(e.content_key.as_bytes()), e.file_size, e.file_type)).collect();
+                let gt = RefTags { tags: p.tags.iter().map(|t| (t.name.clone(), t.tag_type as u16, mask_members(&t.bit_mask, p.entries.len()))).collect() };
+                let got = format!("v={} v2={pv2:?} files=[{}] tags=[{}]", p.header.version, got_files.join(" "), gt.render());
+                if got != want {
+                    self.bp_fail("install", &format!("value-differs-{from}"), format!("parse(serialise(build)) is not the program's value: {}", first_diff(&want, &got)), line);
+                } else {
+                    self.s.tally("install:program:value-eq");
+                }
+            }
+            Ok(Err(e)) => self.bp_fail("install", &format!("output-rejected-{from}"), format!("the serialised builder value ({} bytes) does not parse: {e}", bytes.len()), line),
+            Err(p) => self.bp_fail("install", &format!("output-rejected-{from}"), format!("the serialised builder value makes the parser panic: {p}"), line),
+        }
+        self.bp_fixed_point("install", &bytes, line);
+        Some(format!("ok v={} t={} e={} n={} h={:016x}", m.header.version, m.tags.len(), m.entries.len(), bytes.len(), fnv64(&bytes)))
+    }
+
+    // ---- download ----------------------------------------------------------------------------
+    fn bp_download(&mut self, src: &str, ops: &str, line: &str) -> Option<String> {
+        #[derive(Clone)]
+        struct F {
+            key: [u8; 16],
+            size: u64,
+            prio: i8,
+            cks: Option<u32>,
+            flags: Option<Vec<u8>>,
+        }
+        let ops: Vec<&str> = if ops == "-" { vec![] } else { ops.split(',').collect() };
+        for o in &ops {
+            if o.len() < 3 {
+                return None;
+            }
+            let (k, r) = o.split_at(2);
+            let ok = match k {
+                "rf" | "rk" | "rt" => r.parse::<u64>().is_ok(),
+                "af" | "up" => split2(r).is_some_and(|(x, y)| x.parse::<u64>().is_ok() && y.parse::<i8>().is_ok()),
+                "at" | "as" | "ds" | "uk" | "us" => split2(r).is_some_and(|(x, y)| x.parse::<u64>().is_ok() && y.parse::<u64>().is_ok()),
+                "sf" => split2(r).is_some_and(|(x, y)| x.parse::<u64>().is_ok() && unhex(y).is_some()),
+                _ => false,
+            };
+            if !ok {
+                return None;
+            }
+        }
+        let (parsed, cfg) = if let Some(c) = src.strip_prefix("new:") {
+            let p: Vec<&str> = c.split(':').collect();
+            let [v, cks, fs, bp] = p.as_slice() else { return None };
+            (None, (v.parse::<u8>().ok()?, cks.parse::<u8>().ok()? != 0, fs.parse::<u8>().ok()?, bp.parse::<i8>().ok()?))
+        } else {
+            let b = unhex(src)?;
+            match catch(AssertUnwindSafe(|| DownloadManifest::parse(&b))) {
+                Ok(Ok(m)) => {
+                    let c = (m.header.version(), m.header.has_checksum(), m.header.flag_size(), m.header.base_priority());
+                    (Some(m), c)
+                }
+                _ => {
+                    self.s.case(None);
+                    return Some("-".into());
+                }
+            }
+        };
+        let (ver, cks, fs, bp) = cfg;
+        let from = if parsed.is_some() { format!("from-v{ver}") } else { format!("new-v{ver}") };
+        let mut files: Vec<F> =
+            parsed.as_ref().map_or(vec![], |m| m.entries.iter().map(|e| F { key: *e.encoding_key.as_bytes(), size: e.file_size.as_u64(), prio: e.priority, cks: e.checksum, flags: e.flags.clone() }).collect());
+        let mut rt = RefTags { tags: parsed.as_ref().map_or(vec![], |m| m.tags.iter().map(|t| (t.name.clone(), t.tag_type as u16, mask_members(&t.bit_mask, m.entries.len()))).collect()) };
+        let run = catch(AssertUnwindSafe(|| -> Result<Option<DownloadManifest>, String> {
+            let mut b = match &parsed {
+                Some(m) => DownloadManifestBuilder::from_manifest(m),
+                None => {
+                    let b = DownloadManifestBuilder::new(ver).map_err(|_| "cfg".to_string());
+                    let b = b.map(|b| b.with_checksums(cks)).and_then(|b| b.with_flags(fs).map_err(|_| "cfg".to_string())).and_then(|b| b.with_base_priority(bp).map_err(|_| "cfg".to_string()));
+                    match b {
+                        Ok(b) => b,
+                        Err(_) => return Ok(None), // a configuration the version does not have
+                    }
+                }
+            };
+            for o in &ops {
+                let (k, r) = o.split_at(2);
+                let one = |t: &str| t.parse::<u64>().unwrap_or(0);
+                let (x, y) = split2(r).unwrap_or((r, "0"));
+                match k {
+                    "af" => {
+                        let (id, prio) = (one(x), y.parse::<i8>().unwrap_or(0));
+                        b = b.add_file(EncodingKey::from_bytes(dkey(id)), dsize40(id), prio).map_err(|e| format!("add_file: {e}"))?;
+                        let c = if cks { Some(dsize32(id) ^ 0xA5A5_A5A5) } else { None };
+                        if let Some(c) = c {
+                            b = b.set_file_checksum(files.len(), c).map_err(|e| format!("set_file_checksum: {e}"))?;
+                        }
+                        files.push(F { key: dkey(id), size: dsize40(id), prio, cks: c, flags: if fs > 0 { Some(vec![0; fs as usize]) } else { None } });
+                        rt.add_file();
+                    }
+                    "rf" => {
+                        let i = one(r) as usize;
+                        let did = b.remove_file(i);
+                        if did != (i < files.len()) {
+                            return Err(format!("remove_file({i}) returns {did} with {} files", files.len()));
+                        }
+                        if did {
+                            files.remove(i);
+                            rt.remove_file(i);
+                        }
+                    }
+                    "rk" => {
+                        let key = dkey(one(r));
+                        let at = files.iter().position(|f| f.key == key);
+                        let did = b.remove_file_by_key(&EncodingKey::from_bytes(key));
+                        if did != at.is_some() {
+                            return Err(format!("remove_file_by_key returns {did}, the key is at {at:?}"));
+                        }
+                        if let Some(i) = at {
+                            files.remove(i);
+                            rt.remove_file(i);
+                        }
+                    }
+                    "at" => {
+                        let (id, ty) = (one(x), one(y));
+                        if let Some(tt) = u16::try_from(ty).ok().and_then(TagType::from_u16) {
+                            if !rt.tags.iter().any(|t| t.0 == dtag(id)) {
+                                b = b.add_tag(dtag(id), tt);
+                                rt.tags.push((dtag(id), ty as u16, vec![false; files.len()]));
+                            }
+                        }
+                    }
+                    "rt" => {
+                        let tj = one(r) as usize;
+                        if tj < rt.tags.len() {
+                            if !b.remove_tag(&rt.tags[tj].0.clone()) {
+                                return Err("remove_tag does not find an existing tag".into());
+                            }
+                            rt.tags.remove(tj);
+                        }
+                    }
+                    "as" | "ds" => {
+                        let (i, tj) = (one(x) as usize, one(y) as usize);
+                        if i < files.len() && tj < rt.tags.len() {
+                            let name = rt.tags[tj].0.clone();
+                            b = if k == "as" { b.associate_file_with_tag(i, &name) } else { b.disassociate_file_from_tag(i, &name) }.map_err(|e| format!("{k}: {e}"))?;
+                            rt.tags[tj].2[i] = k == "as";
+                        }
+                    }
+                    "uk" => {
+                        let (i, id) = (one(x) as usize, one(y));
+                        if b.update_file_key(i, EncodingKey::from_bytes(dkey(id))) != (i < files.len()) {
+                            return Err("update_file_key: wrong result".into());
+                        }
+                        if i < files.len() {
+                            files[i].key = dkey(id);
+                        }
+                    }
+                    "us" => {
+                        let (i, id) = (one(x) as usize, one(y));
+                        if i < files.len() {
+                            b.update_file_size(i, dsize40(id)).map_err(|e| format!("update_file_size: {e}"))?;
+                            files[i].size = dsize40(id);
+                        }
+                    }
+                    "up" => {
+                        let (i, p) = (one(x) as usize, y.parse::<i8>().unwrap_or(0));
+                        if b.update_file_priority(i, p) != (i < files.len()) {
+                            return Err("update_file_priority: wrong result".into());
+                        }
+                        if i < files.len() {
+                            files[i].prio = p;
+                        }
+                    }
+                    "sf" => {
+                        let (i, fl) = (one(x) as usize, unhex(y).unwrap_or_default());
+                        if i < files.len() && fs > 0 && fl.len() == fs as usize {
+                            b = b.set_file_flags(i, fl.clone()).map_err(|e| format!("set_file_flags: {e}"))?;
+                            files[i].flags = Some(fl);
+                        }
+                    }
+                    _ => {}
+                }
+            }
+            b.build().map(Some).map_err(|e| format!("build: {e}"))
+        }));
+        self.s.tally(&format!("download:program:{from}"));
+        let m = match run {
+            Err(p) => {
+                self.s.case(None);
+                self.bp_fail("download", &format!("panics-{from}"), format!("panic: {p}"), line);
+                return Some("-".into());
+            }
+            Ok(Err(e)) => {
+                self.s.case(None);
+                self.bp_fail("download", &format!("refused-{from}"), format!("a valid program is refused: {e}"), line);
+                return Some("-".into());
+            }
+            Ok(Ok(None)) => {
+                self.s.case(None);
+                return Some("-".into());
+            }
+            Ok(Ok(Some(m))) => m,
+        };
+        let Ok(bytes) = m.build() else {
+            self.s.case(None);
+            self.bp_fail("download", &format!("not-serialisable-{from}"), "DownloadManifest::build fails on the builder's value".into(), line);
+            return Some("-".into());
+        };
+        self.s.case(Some(&format!("bp-download:{:016x}", fnv64(line.as_bytes()))));
+        let rf = |f: &F| format!("{}:{}:{}:{:?}:{:?}", hex(&f.key), f.size, f.prio, f.cks, f.flags.as_ref().map(|x| hex(x)));
+        let want = format!("v={ver} cks={cks} fs={fs} bp={bp} files=[{}] tags=[{}]", files.iter().map(rf).collect::<Vec<_>>().join(" "), rt.render());
+        match catch(AssertUnwindSafe(|| DownloadManifest::parse(&bytes))) {
+            Ok(Ok(p)) => {
+                let gf: Vec<String> = p.entries.iter().map(|e| rf(&F { key: *e.encoding_key.as_bytes(), size: e.file_size.as_u64(), prio: e.priority, cks: e.checksum, flags: e.flags.clone() })).collect();
+                let gt = RefTags { tags: p.tags.iter().map(|t| (t.name.clone(), t.tag_type as u16, mask_members(&t.bit_mask, p.entries.len()))).collect() };
+                let got = format!("v={} cks={} fs={} bp={} files=[{}] tags=[{}]", p.header.version(), p.header.has_checksum(), p.header.flag_size(), p.header.base_priority(), gf.join(" "), gt.render());
+                if got != want {
+                    self.bp_fail("download", &format!("value-differs-{from}"), format!("parse(serialise(build)) is not the program's value: {}", first_diff(&want, &got)), line);
+                } else {
+                    self.s.tally("download:program:value-eq");
+                }
+            }
+            Ok(Err(e)) => self.bp_fail("download", &format!("output-rejected-{from}"), format!("the serialised builder value ({} bytes) does not parse: {e}", bytes.len()), line),
+            Err(p) => self.bp_fail("download", &format!("output-rejected-{from}"), format!("the serialised builder value makes the parser panic: {p}"), line),
+        }
+        self.bp_fixed_point("download", &bytes, line);
+        Some("-".into())
+    }
+
+    // ---- BLTE --------------------------------------------------------------------------------
+    fn bp_blte(&mut self, via: &str, mode: &str, n: usize, len: usize, line: &str) -> Option<String> {
+        let cm = match mode {
+            "n" => CompressionMode::None,
+            "z" => CompressionMode::ZLib,
+            _ => CompressionMode::LZ4,
+        };
+        let piece = |i: usize| -> Vec<u8> { (0..len).map(|j| (i * 31 + j * 7 + 1) as u8).collect() };
+        let content: Vec<u8> = (0..n).flat_map(piece).collect();
+        let class = if n >= 65536 { "chunks-ge-65536" } else if n >= 256 { "chunks-ge-256" } else { "chunks-lt-256" };
+        let built = catch(AssertUnwindSafe(|| -> Result<BlteFile, String> {
+            match via {
+                "d" => BlteBuilder::new().with_compression(cm).with_chunk_size_unchecked(len).add_data(&content).map_err(es)?.build().map_err(es),
+                _ => {
+                    let mut chunks = Vec::with_capacity(n);
+                    for i in 0..n {
+                        chunks.push(ChunkData::new(piece(i), cm).map_err(es)?);
+                    }
+                    if via == "x" {
+                        Ok(BlteFile { header: BlteHeader::multi_chunk_extended(&chunks).map_err(es)?, chunks })
+                    } else {
+                        let mut b = BlteBuilder::new();
+                        for c in chunks {
+                            b = b.add_chunk(c);
+                        }
+                        b.build().map_err(es)
+                    }
+                }
+            }
+        }));
+        self.s.tally(&format!("blte:program:{via}:{class}"));
+        let f = match built {
+            Ok(Ok(f)) => f,
+            Ok(Err(e)) => {
+                self.s.case(None);
+                self.bp_fail("blte", &format!("refused-{class}"), format!("{n} chunks of {len} bytes refused: {e}"), line);
+                return Some("err".into());
+            }
+            Err(p) => {
+                self.s.case(None);
+                self.bp_fail("blte", &format!("panics-{class}"), format!("{n} chunks of {len} bytes: panic {p}"), line);
+                return Some("panic".into());
+            }
+        };
+        let Ok(bytes) = CascFormat::build(&f) else {
+            self.s.case(None);
+            self.bp_fail("blte", &format!("not-serialisable-{class}"), format!("{n} chunks: CascFormat::build fails"), line);
+            return Some("err".into());
+        };
+        self.s.case(Some(&format!("bp-blte:{via}:{mode}:{n}:{len}")));
+        let hs = be32(&bytes, 4);
+        let tbl = if hs == 0 { "-".to_string() } else { hex(&bytes[8..12.min(bytes.len())]) };
+        match catch(AssertUnwindSafe(|| <BlteFile as CascFormat>::parse(&bytes).map_err(es))) {
+            Ok(Ok(p)) => {
+                let mut bad = None;
+                if p.chunks.len() != n {
+                    bad = Some(format!("{} chunks parsed, {n} built (header says {})", p.chunks.len(), p.header.chunk_count()));
+                } else if p.header.chunk_count() != n {
+                    bad = Some(format!("the parsed header states {} chunks, {n} built", p.header.chunk_count()));
+                } else if let Some(i) = (0..n).find(|&i| p.chunks[i].mode != f.chunks[i].mode || p.chunks[i].data != f.chunks[i].data) {
+                    bad = Some(format!("chunk {i} of {n} reads back with other mode / data"));
+                } else {
+                    match catch(AssertUnwindSafe(|| p.decompress().map_err(es))) {
+                        Ok(Ok(d)) if d == content => {}
+                        Ok(Ok(d)) => bad = Some(format!("decoded content has {} bytes, the program gave {}", d.len(), content.len())),
+                        Ok(Err(e)) => bad = Some(format!("decoding the parsed file fails: {e}")),
+                        Err(p) => bad = Some(format!("decoding the parsed file panics: {p}")),
+                    }
+                }
+                match bad {
+                    Some(m) => self.bp_fail("blte", &format!("value-differs-{class}"), m, line),
+                    None => self.s.tally("blte:program:value-eq"),
+                }
+            }
+            Ok(Err(e)) => self.bp_fail("blte", &format!("output-rejected-{class}"), format!("{n} chunks: the serialised file ({} bytes) does not parse: {e}", bytes.len()), line),
+            Err(p) => self.bp_fail("blte", &format!("output-rejected-{class}"), format!("{n} chunks: the parser panics: {p}"), line),
+        }
+        self.bp_fixed_point("blte", &bytes, line);
+        Some(format!("ok hs={hs} tbl={tbl}"))
+    }
+
+    // ---- TVFS --------------------------------------------------------------------------------
+    fn bp_tvfs(&mut self, flags: u32, ns: usize, sl: usize, n: usize, line: &str) -> Option<String> {
+        let mut b = TvfsBuilder::with_flags(flags);
+        // EST strings of exactly `sl` bytes
+        let spec = |j: usize| -> String {
+            let d = format!("{j}");
+            let mut s = String::from("z");
+            while s.len() + d.len() < sl {
+                s.push('0');
+            }
+            s.push_str(&d);
+            s.truncate(sl.max(1));
+            s
+        };
+        let nspecs = if flags & 2 != 0 { ns } else { 0 };
+        for j in 0..nspecs {
+            b.add_est_spec(spec(j));
+        }
+        struct R {
+            path: String,
+            ekey: [u8; 9],
+            esize: u32,
+            csize: u32,
+            ckey: Option<[u8; 16]>,
+            est: u32,
+        }
+        let recs: Vec<R> = (0..n as u64)
+            .map(|i| {
+                let k = dkey(i + 1);
+                let mut ekey = [0u8; 9];
+                ekey.copy_from_slice(&k[..9]);
+                R {
+                    path: format!("d{:03}/f{:07}", i / 61, i),
+                    ekey,
+                    esize: (i * 3 + 1) as u32,
+                    csize: if i % 7 == 0 { u32::MAX >> 1 } else { (i * 5 + 2) as u32 },
+                    ckey: if flags & 1 != 0 { Some(dkey(i + 0x100_0000)) } else { None },
+                    est: if nspecs > 0 { (i % nspecs as u64) as u32 } else { 0 },
+                }
+            })
+            .collect();
+        for r in &recs {
+            if flags & 2 != 0 {
+                b.add_file_with_est(r.path.clone(), r.ekey, r.esize, r.csize, r.ckey, r.est);
+            } else {
+                b.add_file(r.path.clone(), r.ekey, r.esize, r.csize, r.ckey);
+            }
+        }
+        let class = format!("flags-{flags}");
+        self.s.tally(&format!("tvfs:program:{class}"));
+        let bytes = match catch(AssertUnwindSafe(|| b.build().map_err(es))) {
+            Ok(Ok(x)) => x,
+            Ok(Err(e)) => {
+                self.s.case(None);
+                self.bp_fail("tvfs", &format!("refused-{class}"), format!("{n} files: {e}"), line);
+                return Some("err".into());
+            }
+            Err(p) => {
+                self.s.case(None);
+                self.bp_fail("tvfs", &format!("panics-{class}"), format!("{n} files: panic {p}"), line);
+                return Some("panic".into());
+            }
+        };
+        self.s.case(Some(&format!("bp-tvfs:{flags}:{ns}:{sl}:{n}")));
+        let resp;
+        match catch(AssertUnwindSafe(|| TvfsFile::parse(&bytes).map_err(es))) {
+            Ok(Ok(t)) => {
+                use std::collections::HashMap;
+                let by_path: HashMap<&str, u32> = t.path_table.files.iter().map(|f| (f.path.as_str(), f.vfs_offset)).collect();
+                let vfs: HashMap<u32, &cascette_formats::tvfs::VfsEntry> = t.vfs_table.entries.iter().map(|e| (e.offset, e)).collect();
+                let cft: HashMap<u32, &cascette_formats::tvfs::ContainerEntry> = t.container_table.entries.iter().map(|e| (e.offset, e)).collect();
+                let mut bad: Option<String> = None;
+                let mut wrong = 0usize;
+                let mut last_off = 0u32;
+                if t.path_table.files.len() != n || t.container_table.entries.len() != n || t.vfs_table.entries.len() != n {
+                    bad = Some(format!("{n} files built; parsed {} paths / {} VFS entries / {} container entries", t.path_table.files.len(), t.vfs_table.entries.len(), t.container_table.entries.len()));
+                }
+                for (i, r) in recs.iter().enumerate() {
+                    let got = by_path.get(r.path.as_str()).and_then(|o| vfs.get(o)).and_then(|v| v.spans.first()).and_then(|s| cft.get(&s.cft_offset).map(|c| (s, *c)));
+                    let ok = got.is_some_and(|(s, c)| {
+                        s.file_offset == 0
+                            && s.span_length == r.csize
+                            && c.ekey == r.ekey
+                            && c.encoded_size == r.esize
+                            && c.content_key.as_deref() == r.ckey.as_ref().map(|k| &k[..9])
+                            && c.est_index == if flags & 2 != 0 { Some(r.est) } else { None }
+                            && c.patch_offset == if flags & 4 != 0 { Some(0) } else { None }
+                    });
+                    if i + 1 == n {
+                        last_off = got.map_or(u32::MAX, |(s, _)| s.cft_offset);
+                    }
+                    if !ok {
+                        wrong += 1;
+                        if bad.is_none() {
+                            bad = Some(format!("path {:?} (file {i} of {n}) resolves to {:?}, added with ekey {} esize {} csize {}", r.path, got.map(|(s, c)| format!("span {}/{} -> cft@{} ekey {} esize {} ckey {:?} est {:?} patch {:?}", s.file_offset, s.span_length, s.cft_offset, hex(&c.ekey), c.encoded_size, c.content_key.as_ref().map(|k| hex(k)), c.est_index, c.patch_offset)), hex(&r.ekey), r.esize, r.csize));
+                        }
+                    }
+                }
+                // the crate's own chain on a sample
+                if bad.is_none() {
+                    for i in [0, n / 2, n.saturating_sub(1)] {
+                        if let Some(r) = recs.get(i) {
+                            if !t.resolve_path(&r.path).is_some_and(|c| c.ekey == r.ekey && c.encoded_size == r.esize) {
+                                bad = Some(format!("TvfsFile::resolve_path({:?}) does not return the file's container record", r.path));
+                            }
+                        }
+                    }
+                }
+                if bad.is_none() && nspecs > 0 && t.est_table.as_ref().map(|e| e.specs.clone()) != Some((0..nspecs).map(spec).collect::<Vec<_>>()) {
+                    bad = Some("the EST strings read back differ from the ones added".into());
+                }
+                match bad {
+                    Some(m) => self.bp_fail("tvfs", &format!("value-differs-{class}"), format!("{m} ({wrong} of {n} files wrong; container table {} bytes, entry size {})", t.header.cft_table_size, t.header.cft_entry_size()), line),
+                    None => self.s.tally("tvfs:program:value-eq"),
+                }
+                resp = format!("ok es={} cft={} w={} last={}", t.header.cft_entry_size(), t.header.cft_table_size, t.header.cft_offs_size(), last_off);
+            }
+            Ok(Err(e)) => {
+                self.bp_fail("tvfs", &format!("output-rejected-{class}"), format!("{n} files: the builder's output ({} bytes) does not parse: {e}", bytes.len()), line);
+                resp = "rejected".to_string();
+            }
+            Err(p) => {
+                self.bp_fail("tvfs", &format!("output-rejected-{class}"), format!("{n} files: the parser panics: {p}"), line);
+                resp = "rejected".to_string();
+            }
+        }
+        // the Debug-based fixed-point pipeline on tables of a million entries is thorough-only work
+        if n <= 100_000 {
+            self.bp_fixed_point("tvfs", &bytes, line);
+        } else {
+            match catch(AssertUnwindSafe(|| TvfsFile::parse(&bytes).map_err(es).and_then(|t| t.build().map_err(es)))) {
+                Ok(Ok(b2)) if b2 == bytes => self.s.tally("tvfs:program:large-rebuild-identical"),
+                other => self.bp_fail("tvfs", &format!("large-rebuild-differs-{class}"), format!("{n} files: parse -> build does not give the builder's bytes back ({})", match other { Ok(Ok(b2)) => format!("{} / {} bytes", b2.len(), bytes.len()), Ok(Err(e)) => e, Err(p) => p }), line),
+            }
+        }
+        Some(resp)
+    }
+}
+
+// ---- count / width boundary families (oracle-only): the builder's VALUE against the parsed content
+impl Ctx {
+    fn bp_width(&mut self, fmt: &str, v: &[u64], line: &str) -> Option<String> {
+        // outcome of one family member: Ok(Some(bytes)) = built, value compared; Ok(None) = the builder
+        // refused (allowed on the far side of a width); Err = a failure (what, message)
+        type Res = Result<Option<Vec<u8>>, (String, String)>;
+        let differs = |class: &str, msg: String| -> Res { Err((format!("value-differs-{class}"), msg)) };
+        let cnt = |n: u64| if n >= 65536 { "ge-65536" } else if n >= 256 { "ge-256" } else { "lt-256" };
+        let (ofmt, res): (&str, Result<Res, String>) = match (fmt, v) {
+            // install: V1 from new(), V2 from a header-only V2 manifest; nt tags, nf files, file i in tag i % nt
+            ("installw", &[ver, nt, nf]) if (1..=2).contains(&ver) && nt <= 70_000 && nf <= 200_000 => (
+                "install",
+                catch(AssertUnwindSafe(|| -> Res {
+                    let class = format!("v{ver}-tags-{}-files-{}", cnt(nt), cnt(nf));
+                    let mut b = if ver == 1 {
+                        InstallManifestBuilder::new()
+                    } else {
+                        let src = InstallManifest::parse(&frame_install(2, 0, 0)).map_err(|e| ("source-rejected".to_string(), es(e)))?;
+                        InstallManifestBuilder::from_manifest(&src)
+                    };
+                    for j in 0..nt {
+                        b = b.add_tag(dtag(j), TAG_TYPES[j as usize % TAG_TYPES.len()]);
+                    }
+                    for i in 0..nf {
+                        b = b.add_file(dpath(i), ContentKey::from_bytes(dkey(i)), dsize32(i));
+                    }
+                    let sample: Vec<u64> = if nf * nt.max(1) <= 300_000 { (0..nf).collect() } else { (0..nf).filter(|i| i % 97 == 0 || *i + 1 == nf).collect() };
+                    if nt > 0 {
+                        for &i in &sample {
+                            b = b.associate_file_with_tag_by_index(i as usize, (i % nt) as usize).map_err(|e| ("refused".to_string(), es(e)))?;
+                        }
+                    }
+                    let Ok(m) = b.build() else { return Ok(None) };
+                    let bytes = m.build().map_err(|e| ("not-serialisable".to_string(), es(e)))?;
+                    let p = InstallManifest::parse(&bytes).map_err(|e| (format!("output-rejected-{class}"), es(e)))?;
+                    if p.header.version as u64 != ver || p.tags.len() as u64 != nt || p.entries.len() as u64 != nf {
+                        return differs(&class, format!("built V{ver} with {nt} tags / {nf} files, parsed V{} with {} / {}", p.header.version, p.tags.len(), p.entries.len()));
+                    }
+                    for (i, e) in p.entries.iter().enumerate() {
+                        let i = i as u64;
+                        if e.path != dpath(i) || *e.content_key.as_bytes() != dkey(i) || e.file_size != dsize32(i) || e.file_type != if ver == 2 { Some(0) } else { None } {
+                            return differs(&class, format!("entry {i} of {nf} reads back as {e:?}"));
+                        }
+                    }
+                    for (j, t) in p.tags.iter().enumerate() {
+                        if t.name != dtag(j as u64) || t.tag_type != TAG_TYPES[j % TAG_TYPES.len()] {
+                            return differs(&class, format!("tag {j} of {nt} reads back as {:?}/{:?}", t.name, t.tag_type));
+                        }
+                    }
+                    for &i in &sample {
+                        for j in [i % nt.max(1), (i + 1) % nt.max(1)] {
+                            if nt > 0 && p.tags[j as usize].has_file(i as usize) != (j == i % nt) {
+                                return differs(&class, format!("file {i} / tag {j}: membership reads back wrong"));
+                            }
+                        }
+                    }
+                    Ok(Some(bytes))
+                })),
+            ),
+            ("downloadw", &[ver, cks, fs, nt, nf]) if (1..=3).contains(&ver) && cks < 2 && fs <= 4 && nt <= 70_000 && nf <= 200_000 => (
+                "download",
+                catch(AssertUnwindSafe(|| -> Res {
+                    let class = format!("v{ver}-tags-{}-files-{}", cnt(nt), cnt(nf));
+                    let r = |e: cascette_formats::download::DownloadError| ("refused".to_string(), es(e));
+                    let mut b = DownloadManifestBuilder::new(ver as u8).map_err(r)?.with_checksums(cks == 1);
+                    if ver >= 2 {
+                        b = b.with_flags(fs as u8).map_err(r)?;
+                    }
+                    if ver >= 3 {
+                        b = b.with_base_priority(-3).map_err(r)?;
+                    }
+                    let efs = if ver >= 2 { fs as usize } else { 0 };
+                    for i in 0..nf {
+                        b = b.add_file(EncodingKey::from_bytes(dkey(i)), dsize40(i), (i as u8) as i8).map_err(r)?;
+                    }
+                    for j in 0..nt {
+                        b = b.add_tag(dtag(j), TAG_TYPES[j as usize % TAG_TYPES.len()]);
+                    }
+                    for i in 0..nf {
+                        if cks == 1 {
+                            b = b.set_file_checksum(i as usize, dsize32(i) ^ 0x1234_5678).map_err(r)?;
+                        }
+                        if efs > 0 && i % 3 == 0 {
+                            b = b.set_file_flags(i as usize, (0..efs).map(|k| (i as usize + k) as u8).collect()).map_err(r)?;
+                        }
+                    }
+                    let sample: Vec<u64> = if nf <= 3000 { (0..nf).collect() } else { (0..nf).filter(|i| i % 97 == 0 || *i + 1 == nf).collect() };
+                    if nt > 0 {
+                        for &i in &sample {
+                            b = b.associate_file_with_tag(i as usize, &dtag(i % nt)).map_err(r)?;
+                        }
+                    }
+                    let Ok(m) = b.build() else { return Ok(None) };
+                    let bytes = m.build().map_err(|e| ("not-serialisable".to_string(), es(e)))?;
+                    let p = DownloadManifest::parse(&bytes).map_err(|e| (format!("output-rejected-{class}"), es(e)))?;
+                    if p.header.version() as u64 != ver || p.tags.len() as u64 != nt || p.entries.len() as u64 != nf || p.header.has_checksum() != (cks == 1) || p.header.flag_size() as usize != efs {
+                        return differs(&class, format!("built V{ver} with {nt} tags / {nf} files, parsed V{} with {} / {}", p.header.version(), p.tags.len(), p.entries.len()));
+                    }
+                    for (i, e) in p.entries.iter().enumerate() {
+                        let i = i as u64;
+                        let fl = if efs > 0 { Some(if i % 3 == 0 { (0..efs).map(|k| (i as usize + k) as u8).collect() } else { vec![0; efs] }) } else { None };
+                        if *e.encoding_key.as_bytes() != dkey(i) || e.file_size.as_u64() != dsize40(i) || e.priority != (i as u8) as i8 || e.checksum != if cks == 1 { Some(dsize32(i) ^ 0x1234_5678) } else { None } || e.flags != fl {
+                            return differs(&class, format!("entry {i} of {nf} reads back as {e:?}"));
+                        }
+                    }
+                    for &i in &sample {
+                        for j in [i % nt.max(1), (i + 1) % nt.max(1)] {
+                            if nt > 0 && p.tags[j as usize].has_file(i as usize) != (j == i % nt) {
+                                return differs(&class, format!("file {i} / tag {j}: membership reads back wrong"));
+                            }
+                        }
+                    }
+                    Ok(Some(bytes))
+                })),
+            ),
+            // size manifest: pat 0 = every esize at the cap of the width, 1 = mixed, 2 = u32::MAX each (V2 total at 2^40)
+            ("sizew", &[ver, ks, w, nt, nf, pat]) if (1..=2).contains(&ver) && (1..=16).contains(&ks) && (1..=8).contains(&w) && nt <= 70_000 && nf <= 200_000 && pat < 3 => (
+                "size",
+                catch(AssertUnwindSafe(|| -> Res {
+                    let class = format!("v{ver}-w{w}-tags-{}-files-{}", cnt(nt), cnt(nf));
+                    let w = if ver == 2 { 4 } else { w };
+                    let cap: u64 = if w >= 8 { u64::MAX } else { (1u64 << (8 * w)) - 1 };
+                    let esize = |i: u64| match pat {
+                        0 => cap,
+                        2 => cap.min(u32::MAX as u64),
+                        _ => match i % 4 {
+                            0 => 0,
+                            1 => cap,
+                            2 => cap / 256 + 1,
+                            _ => i.wrapping_mul(0x9E37_79B9_7F4A_7C15) & cap,
+                        },
+                    };
+                    let mut b = SizeManifestBuilder::new().version(ver as u8).ekey_size(ks as u8);
+                    if ver == 1 {
+                        b = b.esize_bytes(w as u8);
+                    }
+                    for i in 0..nf {
+                        b = b.add_entry(dkey(i)[..ks as usize].to_vec(), esize(i));
+                    }
+                    for j in 0..nt {
+                        b = b.add_tag(dtag(j), TAG_TYPES[j as usize % TAG_TYPES.len()]);
+                    }
+                    if nt > 0 {
+                        for i in (0..nf).filter(|i| nf <= 3000 || i % 97 == 0) {
+                            b = b.tag_file((i % nt) as usize, i as usize);
+                        }
+                    }
+                    let Ok(m) = b.build() else { return Ok(None) };
+                    let Ok(bytes) = m.build() else { return Ok(None) };
+                    let p = SizeManifest::parse(&bytes).map_err(|e| (format!("output-rejected-{class}"), es(e)))?;
+                    if p != m {
+                        return differs(&class, "parse(serialise(value)) != value".to_string());
+                    }
+                    let total = (0..nf).fold(0u64, |a, i| a.wrapping_add(esize(i)));
+                    if p.entries.len() as u64 != nf || p.tags.len() as u64 != nt || p.header.total_size() != total || p.entries.iter().enumerate().any(|(i, e)| e.esize != esize(i as u64) || e.key != dkey(i as u64)[..ks as usize]) {
+                        return differs(&class, format!("built {nf} entries / {nt} tags / total {total}, parsed {} / {} / {}", p.entries.len(), p.tags.len(), p.header.total_size()));
+                    }
+                    Ok(Some(bytes))
+                })),
+            ),
+            // root: n records in nb blocks (record i in block i % nb), FileDataIDs 10 + 3 i
+            ("rootw", &[ver, named, nb, n]) if (1..=4).contains(&ver) && named < 2 && (1..=3).contains(&nb) && n >= 1 && n <= 200_000 => (
+                "root",
+                catch(AssertUnwindSafe(|| -> Res {
+                    let rv = ROOT_VERSIONS[ver as usize - 1];
+                    let class = format!("v{ver}-records-{}", cnt(n));
+                    let locs = [LocaleFlags::ENUS, LocaleFlags::DEDE, LocaleFlags::ENUS | LocaleFlags::FRFR];
+                    let recs: Vec<RRec> = (0..n)
+                        .map(|i| {
+                            let blk = (i % nb) as usize;
+                            let mut cf = [0u64, 0x8, 0x80][blk];
+                            if rv != RootVersion::V1 && named == 0 {
+                                cf |= ContentFlags::NO_NAME_HASH;
+                            }
+                            (10 + 3 * i as u32, dkey(i), if rv == RootVersion::V1 || named == 1 { Some(i.wrapping_mul(0x9E37_79B9_7F4A_7C15)) } else { None }, locs[blk], cf)
+                        })
+                        .collect();
+                    if v2_window_recs(rv, &recs) {
+                        return Ok(None);
+                    }
+                    let mut b = RootBuilder::new(rv);
+                    for r in &recs {
+                        b.add_file_with_hash(FileDataId::new(r.0), ContentKey::from_bytes(r.1), r.2, LocaleFlags::new(r.3), ContentFlags::new(r.4));
+                    }
+                    let Ok(bytes) = b.build() else { return Ok(None) };
+                    let p = RootFile::parse(&bytes).map_err(|e| (format!("output-rejected-{class}"), es(e)))?;
+                    let (want, got) = (root_logical_of(rv, &recs), root_logical(&p));
+                    if want != got {
+                        return differs(&class, first_diff(&want, &got));
+                    }
+                    Ok(Some(bytes))
+                })),
+            ),
+            // archive index: n entries under (ks, ob); locations spread over the whole offset width
+            ("aidxw", &[ks, ob, n]) if (4..=16).contains(&ks) && (4..=6).contains(&ob) && n <= 300_000 => (
+                "aidx",
+                catch(AssertUnwindSafe(|| -> Res {
+                    let class = format!("ks{ks}-ob{ob}-entries-{}", cnt(n));
+                    let top: u64 = 1u64 << (8 * ob);
+                    let ent = |i: u64| (dkey(i + 1)[..ks as usize].to_vec(), dsize32(i) | 1, match i % 4 { 0 => top - 1 - i, 1 => i * 4096 % top, 2 => top / 2 + i, _ => i });
+                    let mut b = ArchiveIndexBuilder::with_config(ks as u8, ob as u8, 4);
+                    for i in 0..n {
+                        let (k, s, o) = ent(i);
+                        b.add_entry(k, s, o);
+                    }
+                    let Ok(bytes) = aidx_builder_bytes(b) else { return Ok(None) };
+                    let p = aidx_parse(&bytes).map_err(|e| (format!("output-rejected-{class}"), e))?;
+                    let mut want: Vec<IndexEntry> = (0..n)
+                        .map(|i| {
+                            let (k, s, o) = ent(i);
+                            IndexEntry { encoding_key: k, size: s, offset: if ob == 6 { o & 0xFFFF_FFFF } else { o }, archive_index: if ob == 6 { Some((o >> 32) as u16) } else { None } }
+                        })
+                        .collect();
+                    want.sort();
+                    if p.footer.element_count as u64 != n || p.entries != want {
+                        let at = p.entries.iter().zip(want.iter()).position(|(a, b)| a != b);
+                        return differs(&class, format!("{n} entries built, {} parsed (footer {}), first differing entry {at:?}", p.entries.len(), p.footer.element_count));
+                    }
+                    let b2 = aidx_builder_bytes(ArchiveIndexBuilder::from_archive_index(&p)).map_err(|e| (format!("from-archive-index-fails-{class}"), e))?;
+                    if b2 != bytes {
+                        return Err((format!("from-archive-index-bytes-differ-{class}"), format!("{} / {} bytes", b2.len(), bytes.len())));
+                    }
+                    Ok(Some(bytes))
+                })),
+            ),
+            // archive group: n entries, archive numbers 0..=amax
+            ("agroupw", &[n, amax]) if n <= 300_000 && amax <= 65535 => (
+                "agroup",
+                catch(AssertUnwindSafe(|| -> Res {
+                    let class = format!("archives-{}-entries-{}", cnt(amax + 1), cnt(n));
+                    let ent = |i: u64| ArchiveGroupEntry::new(dkey(i + 1).to_vec(), if i % 3 == 0 { amax as u16 } else { ((i * 257) % (amax + 1)) as u16 }, if i % 5 == 0 { u32::MAX - i as u32 } else { (i * 8192) as u32 }, dsize32(i) | 1);
+                    let mut b = ArchiveGroupBuilder::new();
+                    for i in 0..n {
+                        b.add_entry(ent(i));
+                    }
+                    let mut bytes = Vec::new();
+                    if b.build(Cursor::new(&mut bytes)).is_err() {
+                        return Ok(None);
+                    }
+                    let p = group_parse(&bytes).map_err(|e| (format!("output-rejected-{class}"), e))?;
+                    let key = |e: &ArchiveGroupEntry| (e.encoding_key.clone(), e.archive_index, e.offset, e.size);
+                    let mut want: Vec<_> = (0..n).map(|i| key(&ent(i))).collect();
+                    want.sort();
+                    let mut got: Vec<_> = p.entries.iter().map(key).collect();
+                    got.sort();
+                    if got != want {
+                        let at = got.iter().zip(want.iter()).position(|(a, b)| a != b);
+                        return differs(&class, format!("{n} entries built, {} parsed, first differing entry {at:?}: want {:?} got {:?}", got.len(), at.and_then(|i| want.get(i)), at.and_then(|i| got.get(i))));
+                    }
+                    Ok(Some(bytes))
+                })),
+            ),
+            // encoding: n CKey entries (entry 0 with k EKeys), sizes by pattern fsz, ne distinct ESpec strings
+            // of el bytes; mt = 1: the parsed file goes through from_encoding_file + add + remove
+            ("encodingw", &[cps, eps, n, k, fsz, ne, el, mt]) if (1..=64).contains(&cps) && (1..=64).contains(&eps) && (1..=100_000).contains(&n) && k <= 300 && fsz < 3 && (1..=70_000).contains(&ne) && (1..=70_000).contains(&el) && ne * el <= 200_000 && mt < 2 => (
+                "encoding",
+                catch(AssertUnwindSafe(|| -> Res {
+                    let class = format!("ekeys-per-ckey-{}-entries-{}-espec-bytes-{}", if k >= 256 { "ge-256" } else if k == 0 { "0" } else { "lt-256" }, cnt(n), cnt(ne * (el + 1)));
+                    let size = |i: u64| match fsz {
+                        0 => dsize40(i),
+                        1 => 0xFF_FFFF_FFFF,
+                        _ => [0xFFFF_FFFFu64, 0x1_0000_0000, 0xFFFF_FFFF_FF, 0][i as usize % 4],
+                    };
+                    let spec = |j: u64| -> String {
+                        let d = format!("{j}");
+                        let mut s = String::from("z");
+                        while s.len() + d.len() < el as usize {
+                            s.push('0');
+                        }
+                        s.push_str(&d);
+                        s.truncate((el as usize).max(1));
+                        s
+                    };
+                    let ekeys_of = |i: u64| -> Vec<[u8; 16]> { (0..if i == 0 { k } else { 1 }).map(|j| dkey(1_000_000 + i * 512 + j)).collect() };
+                    let ck_line = |ck: &[u8; 16], sz: u64, eks: &[[u8; 16]]| format!("{}:{}:{}", hex(ck), sz, eks.iter().map(|e| hex(e)).collect::<Vec<_>>().join("+"));
+                    let ek_line = |ek: &[u8; 16], sz: u64, sp: &str| format!("{}:{}:{:?}", hex(ek), sz, Some(sp));
+                    let mut b = EncodingBuilder::new().with_page_sizes(cps as u16, eps as u16);
+                    let (mut ck, mut ek) = (vec![], vec![]);
+                    for i in 0..n {
+                        let eks = ekeys_of(i);
+                        b.add_ckey_entry(CKeyEntryData { content_key: ContentKey::from_bytes(dkey(i + 1)), file_size: size(i), encoding_keys: eks.iter().map(|e| EncodingKey::from_bytes(*e)).collect() });
+                        ck.push(ck_line(&dkey(i + 1), size(i), &eks));
+                        let e0 = dkey(1_000_000 + i * 512);
+                        let sp = spec(i % ne);
+                        b.add_ekey_entry(EKeyEntryData { encoding_key: EncodingKey::from_bytes(e0), espec: sp.clone(), file_size: size(i + 1) });
+                        ek.push(ek_line(&e0, size(i + 1), &sp));
+                    }
+                    let render = |ck: &[String], ek: &[String]| {
+                        let (mut ck, mut ek) = (ck.to_vec(), ek.to_vec());
+                        ck.sort();
+                        ek.sort();
+                        format!("cps={cps} eps={eps} ckeys={} ekeys={} ck=[{}] ek=[{}]", ck.len(), ek.len(), ck.join(" "), ek.join(" "))
+                    };
+                    let Ok(f) = b.build() else { return Ok(None) };
+                    let Ok(bytes) = f.build() else { return Ok(None) };
+                    let p = <EncodingFile as CascFormat>::parse(&bytes).map_err(|e| (format!("output-rejected-{class}"), es(e)))?;
+                    let (want, got) = (render(&ck, &ek), enc_logical(&p));
+                    if want != got {
+                        return differs(&class, first_diff(&want, &got));
+                    }
+                    if mt == 1 {
+                        // builder-as-mutator: load, add one CKey and one EKey entry, build, parse; remove them again
+                        let (nck, nek) = (dkey(77_777_777), dkey(88_888_888));
+                        let mut b2 = EncodingBuilder::from_encoding_file(&p);
+                        b2.add_ckey_entry(CKeyEntryData { content_key: ContentKey::from_bytes(nck), file_size: 0x1_0000_0001, encoding_keys: vec![EncodingKey::from_bytes(nek)] });
+                        b2.add_ekey_entry(EKeyEntryData { encoding_key: EncodingKey::from_bytes(nek), espec: "b:{256K*=z}".to_string(), file_size: 0xFF_FFFF_FFFE });
+                        let f2 = b2.build().map_err(|e| (format!("mutator-add-refused-{class}"), es(e)))?;
+                        let by2 = f2.build().map_err(|e| (format!("mutator-add-refused-{class}"), es(e)))?;
+                        let p2 = <EncodingFile as CascFormat>::parse(&by2).map_err(|e| (format!("mutator-add-output-rejected-{class}"), es(e)))?;
+                        let (mut ck2, mut ek2) = (ck.clone(), ek.clone());
+                        ck2.push(ck_line(&nck, 0x1_0000_0001, &[nek]));
+                        ek2.push(ek_line(&nek, 0xFF_FFFF_FFFE, "b:{256K*=z}"));
+                        let (want2, got2) = (render(&ck2, &ek2), enc_logical(&p2));
+                        if want2 != got2 {
+                            return Err((format!("mutator-add-value-differs-{class}"), first_diff(&want2, &got2)));
+                        }
+                        let mut b3 = EncodingBuilder::from_encoding_file(&p2);
+                        if !b3.remove_ckey_entry(&ContentKey::from_bytes(nck)) || !b3.remove_ekey_entry(&EncodingKey::from_bytes(nek)) {
+                            return Err((format!("mutator-remove-fails-{class}"), "remove_*_entry does not find the added key".to_string()));
+                        }
+                        let f3 = b3.build().map_err(|e| (format!("mutator-remove-fails-{class}"), es(e)))?;
+                        let by3 = f3.build().map_err(|e| (format!("mutator-remove-fails-{class}"), es(e)))?;
+                        let p3 = <EncodingFile as CascFormat>::parse(&by3).map_err(|e| (format!("mutator-remove-output-rejected-{class}"), es(e)))?;
+                        let got3 = enc_logical(&p3);
+                        if want != got3 {
+                            return Err((format!("mutator-remove-value-differs-{class}"), first_diff(&want, &got3)));
+                        }
+                    }
+                    Ok(Some(bytes))
+                })),
+            ),
+            // patch archive: n entries (entry 0 with np patches, the others 1 + i % 2), encoding-info ESpec
+            // of el bytes (0 = no encoding info), sizes by pattern dsz (1 = one size above 40 bits)
+            ("parchivew", &[ver, bits, n, np, el, dsz]) if ver <= 3 && bits <= 30 && (1..=100_000).contains(&n) && np <= 300 && el <= 300 && dsz < 2 => (
+                "parchive",
+                catch(AssertUnwindSafe(|| -> Res {
+                    let class = format!("patches-per-entry-{}-espec-{}-entries-{}{}", if np >= 256 { "ge-256" } else if np == 0 { "0" } else { "lt-256" }, if el >= 256 { "ge-256" } else { "lt-256" }, cnt(n), if dsz == 1 { "-size-ge-2-40" } else { "" });
+                    let mut b = PatchArchiveBuilder::new().version(ver as u8).block_size_bits(bits as u8);
+                    let info = if el > 0 { Some(PatchArchiveEncodingInfo { encoding_ckey: dkey(5), encoding_ekey: dkey(6), decoded_size: u32::MAX, encoded_size: 0x8000_0000, espec: "b".repeat(el as usize) }) } else { None };
+                    if let Some(i) = &info {
+                        b = b.encoding_info(i.clone());
+                    }
+                    let mut want: Vec<PatchFileEntry> = vec![];
+                    for i in 0..n {
+                        let k = if i == 0 { np } else { 1 + i % 2 };
+                        let patches: Vec<FilePatch> = (0..k).map(|j| FilePatch { source_ekey: dkey(i * 1000 + j + 7), source_decoded_size: dsize40(i + j), patch_ekey: dkey(i * 1000 + j + 500), patch_size: dsize32(i + j), patch_index: j as u8 }).collect();
+                        let e = PatchFileEntry { target_ckey: dkey(i + 1), decoded_size: if dsz == 1 && i == 0 { 0x100_0000_0001 } else { dsize40(i + 3) }, patches };
+                        b.add_entry(e.clone());
+                        want.push(e);
+                    }
+                    let Ok(bytes) = b.build() else { return Ok(None) };
+                    let p = <PatchArchive as CascFormat>::parse(&bytes).map_err(|e| (format!("output-rejected-{class}"), es(e)))?;
+                    want.sort_by(|a, b| a.target_ckey.cmp(&b.target_ckey));
+                    let mut got: Vec<PatchFileEntry> = p.all_file_entries().cloned().collect();
+                    got.sort_by(|a, b| a.target_ckey.cmp(&b.target_ckey));
+                    if got != want {
+                        let at = got.iter().zip(want.iter()).position(|(a, b)| a != b).unwrap_or(got.len().min(want.len()));
+                        return differs(&class, format!("{n} entries built, {} parsed; entry {at}: want {} got {}", got.len(), want.get(at).map_or("-".into(), |e| format!("{} patches, size {}", e.patches.len(), e.decoded_size)), got.get(at).map_or("-".into(), |e| format!("{} patches, size {}", e.patches.len(), e.decoded_size))));
+                    }
+                    if p.header.version as u64 != ver || p.header.block_size_bits as u64 != bits || p.encoding_info != info {
+                        return differs(&class, format!("header / encoding info read back differ: version {} bits {} info {:?}", p.header.version, p.header.block_size_bits, p.encoding_info.as_ref().map(|i| i.espec.len())));
+                    }
+                    Ok(Some(bytes))
+                })),
+            ),
+            ("pindexw", &[ks, n]) if ks <= 16 && n <= 100_000 => (
+                "pindex",
+                catch(AssertUnwindSafe(|| -> Res {
+                    let class = format!("entries-{}", cnt(n));
+                    let cut = |k: [u8; 16]| {
+                        let mut o = [0u8; 16];
+                        o[..ks as usize].copy_from_slice(&k[..ks as usize]);
+                        o
+                    };
+                    let ent = |i: u64| PatchIndexEntry { source_ekey: cut(dkey(3 * i)), source_size: dsize32(i), target_ekey: cut(dkey(3 * i + 1)), target_size: dsize32(i + 1), encoded_size: dsize32(i + 2), suffix_offset: i as u8, patch_ekey: cut(dkey(3 * i + 2)) };
+                    let mut b = PatchIndexBuilder::new().key_size(ks as u8);
+                    for i in 0..n {
+                        b.add_entry(ent(i));
+                    }
+                    let Ok(bytes) = b.build() else { return Ok(None) };
+                    let p = <PatchIndex as CascFormat>::parse(&bytes).map_err(|e| (format!("output-rejected-{class}"), es(e)))?;
+                    let want: Vec<PatchIndexEntry> = (0..n).map(ent).collect();
+                    if p.key_size as u64 != ks || format!("{:?}", p.entries) != format!("{want:?}") {
+                        return differs(&class, format!("{n} entries of key size {ks} built, {} of key size {} parsed (or other content)", p.entries.len(), p.key_size));
+                    }
+                    Ok(Some(bytes))
+                })),
+            ),
+            // ZBSDIFF: old/new of the given lengths, builder kind 0 simple / 1 chunked / 2 build / 3 optimized
+            ("zbsw", &[ol, nl, kind]) if ol <= 300_000 && nl <= 300_000 && kind < 4 => (
+                "zbsdiff",
+                catch(AssertUnwindSafe(|| -> Res {
+                    let class = format!("old-{}-new-{}", cnt(ol), cnt(nl));
+                    let old: Vec<u8> = (0..ol).map(|i| (i * 7 + i / 251) as u8).collect();
+                    let new: Vec<u8> = (0..nl).map(|i| if i % 97 == 13 { 0xEE } else { ((i + 3) * 7 + (i + 3) / 251) as u8 }).collect();
+                    let b = ZbsdiffBuilder::new(old.clone(), new.clone());
+                    let r = match kind {
+                        0 => b.build_simple_patch(),
+                        1 => b.build_chunked_patch(),
+                        2 => b.build(),
+                        _ => b.build_optimized_patch(),
+                    };
+                    let Ok(bytes) = r else { return Ok(None) };
+                    let p = ZbsDiff::parse(&bytes).map_err(|e| (format!("output-rejected-{class}"), es(e)))?;
+                    let out = p.apply(&old).map_err(|e| (format!("value-differs-{class}"), format!("apply fails: {e}")))?;
+                    if out != new || p.header.output_size as u64 != nl {
+                        return differs(&class, format!("applying the parsed patch gives {} bytes (header says {}), the builder was given {nl}", out.len(), p.header.output_size));
+                    }
+                    Ok(Some(bytes))
+                })),
+            ),
+            ("bpsvw", &[nf, nr, seq]) if (1..=300).contains(&nf) && nr <= 70_000 => (
+                "bpsv",
+                catch(AssertUnwindSafe(|| -> Res {
+                    let class = format!("fields-{}-rows-{}", cnt(nf), cnt(nr));
+                    let mut b = BpsvBuilder::new();
+                    for i in 0..nf {
+                        b.add_field(BpsvField::new(format!("F{i}"), match i % 3 { 0 => BpsvType::String(0), 1 => BpsvType::Hex(16), _ => BpsvType::Dec(4) }));
+                    }
+                    if seq <= u32::MAX as u64 {
+                        b.set_sequence(seq as u32);
+                    }
+                    for r in 0..nr {
+                        let row = (0..nf)
+                            .map(|i| match (i % 3, (r + i) % 7) {
+                                (_, 0) => BpsvValue::Empty,
+                                (0, _) => BpsvValue::String(format!("s{r}x{i}")),
+                                (1, _) => BpsvValue::Hex(dkey(r * 300 + i).to_vec()),
+                                _ => BpsvValue::Dec([0i64, -1, 1, i64::MAX, i64::MIN, 4_294_967_296, 65_536][((r + i) % 7) as usize]),
+                            })
+                            .collect();
+                        if b.add_row(row).is_err() {
+                            return Ok(None);
+                        }
+                    }
+                    let doc = b.build();
+                    let bytes = CascFormat::build(&doc).map_err(|e| ("not-serialisable".to_string(), es(e)))?;
+                    let p = <BpsvDocument as CascFormat>::parse(&bytes).map_err(|e| (format!("output-rejected-{class}"), es(e)))?;
+                    let (want, got) = (cdbg(&doc), cdbg(&p));
+                    if want != got {
+                        return differs(&class, first_diff(&want, &got));
+                    }
+                    Ok(Some(bytes))
+                })),
+            ),
+            // ESpec value with a block of `size` bytes repeated `count` times (count 0 = no count)
+            ("especw", &[size, count, lvl]) if count <= u32::MAX as u64 && lvl <= 9 => (
+                "espec",
+                catch(AssertUnwindSafe(|| -> Res {
+                    let class = if size % (1 << 20) == 0 { "size-M" } else if size % 1024 == 0 { "size-K" } else { "size-bytes" };
+                    let z = ESpec::ZLib { level: if lvl == 0 { None } else { Some(lvl as u8) }, variant: None, window_bits: None };
+                    let v = ESpec::BlockTable { chunks: vec![BlockChunk { size_spec: Some(BlockSizeSpec { size, count: if count == 0 { None } else { Some(count as u32) } }), spec: z }, BlockChunk { size_spec: None, spec: ESpec::None }] };
+                    let text = v.to_string();
+                    let p = cascette_formats::espec::parse(&text).map_err(|e| (format!("output-rejected-{class}"), format!("{text:?}: {e}")))?;
+                    if p != v {
+                        return differs(class, format!("{text:?} parses to {p:?}"));
+                    }
+                    Ok(Some(text.into_bytes()))
+                })),
+            ),
+            // data archive (ArchiveBuilder): n BLTE blobs of len bytes; the entries index the archive
+            ("archivew", &[n, len, z]) if n <= 5000 && len <= 100_000 && z < 2 => (
+                "blte",
+                catch(AssertUnwindSafe(|| -> Res {
+                    let class = format!("blobs-{}", cnt(n));
+                    let content = |i: u64| -> Vec<u8> { (0..len).map(|j| (i * 13 + j * 5 + 1) as u8).collect() };
+                    let mut ab = ArchiveBuilder::new(Cursor::new(Vec::new()));
+                    for i in 0..n {
+                        let r = if z == 1 { ab.add_content_zlib(&content(i)) } else { ab.add_content_uncompressed(&content(i)) };
+                        r.map_err(|e| ("refused".to_string(), es(e)))?;
+                    }
+                    let (w, ents) = ab.finish().map_err(|e| ("refused".to_string(), es(e)))?;
+                    let data = w.into_inner();
+                    let mut ib = ArchiveIndexBuilder::new();
+                    for e in &ents {
+                        ib.add_entry_full(e.encoding_key, e.size, e.offset);
+                    }
+                    let idx = aidx_builder_bytes(ib).map_err(|e| ("refused".to_string(), e))?;
+                    let p = aidx_parse(&idx).map_err(|e| (format!("output-rejected-{class}"), e))?;
+                    if ents.len() as u64 != n || p.entries.len() as u64 != n {
+                        return differs(&class, format!("{n} blobs added, {} entries returned, {} indexed", ents.len(), p.entries.len()));
+                    }
+                    for (i, e) in ents.iter().enumerate() {
+                        let Some(ie) = p.find_entry(&e.encoding_key) else { return differs(&class, format!("blob {i}: key not found in the index")) };
+                        let sl = data.get(ie.offset as usize..ie.offset as usize + ie.size as usize).ok_or((format!("value-differs-{class}"), format!("blob {i}: indexed range outside the archive")))?;
+                        let back = <BlteFile as CascFormat>::parse(sl).map_err(es).and_then(|f| f.decompress().map_err(es));
+                        if back.as_deref() != Ok(&content(i as u64)[..]) || *md5::compute(sl) != e.encoding_key {
+                            return differs(&class, format!("blob {i}: the indexed range does not decode to the content added"));
+                        }
+                    }
+                    Ok(Some(idx))
+                })),
+            ),
+            _ => return None,
+        };
+        let wfmt = fmt;
+        self.s.tally(&format!("{wfmt}:program"));
+        match res {
+            Err(p) => {
+                self.s.case(None);
+                self.bp_fail(ofmt, &format!("panics-{wfmt}"), format!("panic: {p}"), line);
+            }
+            Ok(Err((what, msg))) => {
+                self.s.case(Some(&format!("bp:{line}")));
+                self.bp_fail(ofmt, &what, msg, line);
+            }
+            Ok(Ok(None)) if bp_may_refuse(wfmt, v) => {
+                self.s.case(None);
+                self.s.tally(&format!("{wfmt}:program:refused(beyond-a-field-width)"));
+            }
+            Ok(Ok(None)) => {
+                self.s.case(None);
+                self.bp_fail(ofmt, &format!("refused-{wfmt}"), "a program whose counts and sizes fit every field is refused by the builder".to_string(), line);
+            }
+            Ok(Ok(Some(bytes))) => {
+                self.s.case(Some(&format!("bp:{line}")));
+                self.s.tally(&format!("{wfmt}:program:value-eq"));
+                self.bp_fixed_point(if wfmt == "archivew" { "aidx" } else { ofmt }, &bytes, line);
+            }
+        }
+        Some("-".into())
+    }
+}
+
+/// family members on the far side of a field width: the builder may refuse them (if it builds, the
+/// value must still read back)
+fn bp_may_refuse(fmt: &str, v: &[u64]) -> bool {
+    match (fmt, v) {
+        ("installw", &[_, nt, _]) => nt > 65535,
+        ("downloadw", &[_, _, _, nt, _]) => nt > 65535,
+        ("sizew", &[ver, _, _, nt, nf, _]) => nt > 65535 || (ver == 2 && nf >= 257),
+        ("rootw", &[ver, named, _, n]) => ver == 2 && (16..100).contains(&n) && (named == 0 || n < 10),
+        ("encodingw", &[cps, _, _, k, ..]) => k == 0 || k >= 256 || 22 + 16 * k > cps * 1024,
+        ("parchivew", &[ver, bits, _, np, el, dsz]) => !(1..=2).contains(&ver) || !(12..=24).contains(&bits) || np == 0 || np >= 256 || el >= 256 || dsz == 1,
+        ("zbsw", &[ol, nl, _]) => ol == 0 || nl == 0,
+        _ => false,
+    }
+}
+
+// ---- generators of `bp` lines --------------------------------------------------------------------
+
+/// (h) builder programs by parameters: builder-as-mutator programs for install V1/V2 and download
+/// V1-V3 (from empty and from a hand-framed manifest of every version), and the count / width
+/// boundary family of every builder under crates/cascette-formats/src/*/builder.rs
+fn builder_programs(cx: &mut Ctx, rng: &mut Rng, th: bool) {
+    // -- install: the smallest members first
+    let isrc = |ver: u8, nt: usize, nf: usize| hex(&frame_install(ver, nt, nf));
+    for (src, ops) in [
+        ("new".to_string(), "af1"),
+        (isrc(1, 0, 0), "af1"),
+        (isrc(2, 0, 0), "af1"),
+        (isrc(2, 1, 2), "-"),
+        (isrc(2, 1, 2), "af1"),
+        (isrc(2, 1, 2), "aw1.0,af2"),
+        (isrc(1, 1, 2), "aw1.0,af2"),
+        (isrc(2, 2, 8), "af1,rf0,at9.16,as3.2,ds0.0,rt0"),
+        (isrc(1, 2, 9), "rf8,af1,rf0,at9.16,as3.2,ds0.0,rt0"),
+        (isrc(2, 2, 3), "rf0,rf0,rf0,af4"),
+    ] {
+        cx.run_req(&format!("bp install {src} {ops}"));
+    }
+    for _ in 0..(if th { 400 } else { 45 }) {
+        let (mut nt, mut nf) = (rng.below(4) as usize, *rng.pick(&[0usize, 1, 2, 7, 8, 9, 16, 17]));
+        let src = match rng.below(5) {
+            0 => {
+                (nt, nf) = (0, 0);
+                "new".to_string()
+            }
+            1 | 2 => isrc(1, nt, nf),
+            _ => isrc(2, nt, nf),
+        };
+        let mut ops = vec![];
+        let mut next = 1u64;
+        for _ in 0..rng.range(1, 9) {
+            match rng.below(12) {
+                0..=3 => {
+                    ops.push(format!("af{next}"));
+                    next += 1;
+                    nf += 1;
+                }
+                4 if nt > 0 => {
+                    ops.push(format!("aw{next}.{}", rng.below(nt as u64)));
+                    next += 1;
+                    nf += 1;
+                }
+                5 | 6 if nf > 0 => {
+                    let r = rng.below(nf as u64) as usize;
+                    ops.push(format!("rf{}", *rng.pick(&[0, nf - 1, r])));
+                    nf -= 1;
+                }
+                7 => {
+                    ops.push(format!("at{next}.{}", rng.pick(&[1u16, 2, 3, 0x10, 0x8000])));
+                    next += 1;
+                    nt += 1;
+                }
+                8 if nt > 0 => {
+                    ops.push(format!("rt{}", rng.below(nt as u64)));
+                    nt -= 1;
+                }
+                9 | 10 if nt > 0 && nf > 0 => ops.push(format!("as{}.{}", rng.below(nf as u64), rng.below(nt as u64))),
+                11 if nt > 0 && nf > 0 => ops.push(format!("ds{}.{}", rng.below(nf as u64), rng.below(nt as u64))),
+                _ => {
+                    ops.push(format!("af{next}"));
+                    next += 1;
+                    nf += 1;
+                }
+            }
+        }
+        cx.run_req(&format!("bp install {src} {}", ops.join(",")));
+    }
+    // -- download
+    for _ in 0..(if th { 400 } else { 60 }) {
+        let ver = rng.range(1, 3) as u8;
+        let cks = rng.chance(1, 2);
+        let fs = if ver >= 2 { *rng.pick(&[0u8, 0, 1, 2, 4]) } else { 0 };
+        let bp = if ver >= 3 { *rng.pick(&[0i8, -3, 5, -128, 127]) } else { 0 };
+        let (mut nt, mut nf) = (rng.below(4) as usize, *rng.pick(&[0usize, 1, 2, 7, 8, 9, 16, 17]));
+        let src = if rng.chance(1, 4) {
+            (nt, nf) = (0, 0);
+            format!("new:{ver}:{}:{fs}:{bp}", cks as u8)
+        } else {
+            hex(&frame_download(ver, if cks { *rng.pick(&[1u8, 1, 2, 255]) } else { 0 }, fs, bp, nt, nf))
+        };
+        let mut ops = vec![];
+        let mut next = 1u64;
+        let mut added: Vec<u64> = vec![];
+        for _ in 0..rng.range(1, 9) {
+            let prio = *rng.pick(&[0i8, 1, -1, 5, 127, -128]);
+            match rng.below(16) {
+                0..=3 => {
+                    ops.push(format!("af{next}.{prio}"));
+                    added.push(next);
+                    next += 1;
+                    nf += 1;
+                }
+                4 | 5 if nf > 0 => {
+                    let r = rng.below(nf as u64) as usize;
+                    ops.push(format!("rf{}", *rng.pick(&[0, nf - 1, r])));
+                    nf -= 1;
+                }
+                6 if !added.is_empty() => {
+                    // (the key may have been removed by index before: then the call must say so)
+                    let id = *rng.pick(&added);
+                    ops.push(format!("rk{id}"));
+                }
+                7 => ops.push(format!("rk{}", 200 + rng.below(20))),
+                8 => {
+                    ops.push(format!("at{next}.{}", rng.pick(&[1u16, 2, 3, 0x10, 0x8000])));
+                    next += 1;
+                    nt += 1;
+                }
+                9 if nt > 0 => {
+                    ops.push(format!("rt{}", rng.below(nt as u64)));
+                    nt -= 1;
+                }
+                10 | 11 if nt > 0 && nf > 0 => ops.push(format!("as{}.{}", rng.below(nf as u64), rng.below(nt as u64))),
+                12 if nt > 0 && nf > 0 => ops.push(format!("ds{}.{}", rng.below(nf as u64), rng.below(nt as u64))),
+                13 if nf > 0 => ops.push(format!("{}{}.{}", rng.pick(&["uk", "us"]), rng.below(nf as u64), 500 + rng.below(12))),
+                14 if nf > 0 => ops.push(format!("up{}.{prio}", rng.below(nf as u64))),
+                15 if nf > 0 && fs > 0 => ops.push(format!("sf{}.{}", rng.below(nf as u64), hex(&rng.bytes(fs as usize)))),
+                _ => {
+                    ops.push(format!("af{next}.{prio}"));
+                    added.push(next);
+                    next += 1;
+                    nf += 1;
+                }
+            }
+        }
+        // `rk` after an `rf` may name a file that is gone: nf is then only an upper bound, which the
+        // reference handles (ops on indices that do not exist are checked to be refused / skipped)
+        cx.run_req(&format!("bp download {src} {}", ops.join(",")));
+    }
+    // -- BLTE: chunk counts across 2^8 and 2^16 (2^24 chunks need > 400 MB: not reached)
+    for via in ["c", "d", "x"] {
+        for n in [1usize, 2, 3, 254, 255, 256, 257] {
+            cx.run_req(&format!("bp blte {via} {} {n} {}", if n == 2 || n == 256 { "z" } else { "n" }, rng.range(1, 4)));
+        }
+    }
+    let big = 65536 + rng.below(if th { 200_000 } else { 6000 }) as usize;
+    for (via, n, len) in [("c", 65535usize, 2usize), ("c", 65536, 2), ("c", 65537, 1), ("d", 65536, 1), ("x", 65536, 1), ("d", 65535, 3), ("c", big, 1)] {
+        cx.run_req(&format!("bp blte {via} n {n} {len}"));
+    }
+    // -- TVFS: n · entry_size across 0xFF and 0xFFFF for every flag combination, with the entry size
+    // before and after each widening of the patch-offset field (both ends of the window in which
+    // the width depends on itself), EST sizes across 0xFF / 0xFFFF
+    for flags in 0u64..8 {
+        let ests: Vec<(u64, u64)> = if flags & 2 != 0 {
+            let mut v = vec![(3u64, 8u64)];
+            v.push(*rng.pick(&[(15, 16), (16, 15), (1, 254), (1, 255)]));
+            if th || flags == 7 || rng.chance(1, 3) {
+                v.push(*rng.pick(&[(257, 254), (256, 255), (4096, 15)]));
+            }
+            v
+        } else {
+            vec![(0, 0)]
+        };
+        for (ns, sl) in ests {
+            let est_size = ns * (sl + 1);
+            let ew = if flags & 2 == 0 { 0 } else if est_size > 0xFFFF { 3 } else if est_size > 0xFF { 2 } else { 1 };
+            let base = 13 + if flags & 1 != 0 { 9 } else { 0 } + ew;
+            let mut ns_: Vec<u64> = vec![1, 2];
+            for t in [0xFFu64, 0xFFFF] {
+                for es in if flags & 4 != 0 { vec![base + 1, base + 2, base + 3] } else { vec![base] } {
+                    ns_.extend([t / es - 1, t / es, t / es + 1, t / es + 2]);
+                }
+            }
+            if flags & 4 != 0 {
+                // inside the self-referential window
+                let (lo, hi) = (0xFFFF / (base + 3) + 1, 0xFFFF / (base + 2));
+                ns_.push(lo + rng.below(hi - lo + 1));
+                let (lo, hi) = (0xFF / (base + 2) + 1, 0xFF / (base + 1));
+                if hi >= lo {
+                    ns_.push(lo + rng.below(hi - lo + 1));
+                }
+            }
+            ns_.sort_unstable();
+            ns_.dedup();
+            for n in ns_ {
+                // big EST tables only with a few file counts
+                if est_size > 4096 && !(n < 30 || n % 3 == 0) {
+                    continue;
+                }
+                cx.run_req(&format!("bp tvfs {flags} {ns} {sl} {n}"));
+            }
+        }
+        if th && (flags == 5 || flags == 0 || flags == 7) {
+            let es = 13 + if flags & 1 != 0 { 9 } else { 0 } + if flags & 2 != 0 { 1 } else { 0 } + if flags & 4 != 0 { 3 } else { 0 };
+            for n in [0xFF_FFFFu64 / es, 0xFF_FFFF / es + 1] {
+                cx.run_req(&format!("bp tvfs {flags} {} 8 {n}", if flags & 2 != 0 { 3 } else { 0 }));
+            }
+        }
+    }
+    // -- counts and widths of the other builders
+    let j = |rng: &mut Rng| rng.below(40);
+    let mut lines: Vec<String> = vec![];
+    for ver in [1u64, 2] {
+        for (nt, nf) in [(0u64, 1u64), (3, 255), (3, 256), (2, 257), (255, 9), (256, 9), (257, 17), (65535, 3), (65536, 3), (2, 65535), (2, 65536), (1, 65537 + j(rng))] {
+            lines.push(format!("installw {ver} {nt} {nf}"));
+        }
+    }
+    for ver in [1u64, 2, 3] {
+        let (cks, fs) = (rng.below(2), if ver >= 2 { rng.below(5) } else { 0 });
+        for (nt, nf) in [(0u64, 1u64), (3, 255), (3, 256), (2, 257), (255, 9), (256, 9), (257, 17), (65535, 3), (65536, 3), (2, 65535), (2, 65536 + j(rng))] {
+            lines.push(format!("downloadw {ver} {cks} {fs} {nt} {nf}"));
+        }
+    }
+    for w in 1u64..=8 {
+        lines.push(format!("sizew 1 {} {w} {} {} {}", rng.pick(&[1u64, 9, 16]), rng.below(3), rng.pick(&[1u64, 2, 9, 255, 256, 257]), if w == 8 { 1 } else { rng.below(2) }));
+    }
+    for (ver, nt, nf, pat) in [(1u64, 2u64, 65535u64, 1u64), (1, 2, 65536, 1), (2, 1, 65537, 1), (1, 255, 9, 1), (1, 256, 9, 1), (2, 257, 9, 1), (1, 65535, 3, 1), (2, 65536, 3, 1), (2, 2, 255, 2), (2, 2, 256, 2), (2, 2, 257, 2), (2, 0, 258, 0)] {
+        lines.push(format!("sizew {ver} 9 4 {nt} {nf} {pat}"));
+    }
+    for ver in 1u64..=4 {
+        for n in [255u64, 256, 257, 65535, 65536 + j(rng)] {
+            lines.push(format!("rootw {ver} {} {} {n}", rng.below(2), rng.range(1, 3)));
+        }
+    }
+    for (ks, ob) in [(16u64, 4u64), (9, 5), (16, 6), (4, 4)] {
+        for n in [255u64, 256, 257, 65535, 65536, 65537 + j(rng)] {
+            if ks == 4 && n > 60000 {
+                continue;
+            }
+            lines.push(format!("aidxw {ks} {ob} {n}"));
+        }
+    }
+    for (n, amax) in [(300u64, 0u64), (300, 255), (300, 256), (300, 65535), (65535, 257), (65536, 65535), (65537 + j(rng), 3)] {
+        lines.push(format!("agroupw {n} {amax}"));
+    }
+    for (cps, eps, n, k, fsz, ne, el, mt) in [
+        (4u64, 4u64, 40u64, 1u64, 0u64, 3u64, 5u64, 1u64),
+        (4, 1, 300, 2, 2, 4, 7, 1),
+        (1, 2, 6700 + j(rng), 1, 0, 3, 5, 1),
+        (8, 4, 10, 254, 0, 3, 5, 1),
+        (8, 4, 10, 255, 1, 3, 5, 1),
+        (8, 4, 10, 256, 0, 3, 5, 0),
+        (8, 4, 10, 257, 0, 3, 5, 0),
+        (8, 4, 10, 0, 0, 3, 5, 0),
+        (4, 4, 10, 254, 0, 3, 5, 0),
+        (4, 4, 10, 255, 0, 3, 5, 0),
+        (1, 1, 30, 62, 0, 3, 5, 0),
+        (1, 1, 30, 63, 0, 3, 5, 0),
+        (4, 4, 300, 1, 0, 1, 254, 1),
+        (4, 4, 300, 1, 0, 1, 255, 1),
+        (4, 4, 300, 1, 0, 255, 256, 1),
+        (4, 4, 300, 1, 0, 256, 255, 1),
+        (4, 4, 300, 1, 0, 257, 254, 1),
+        (2, 2, 65536 + j(rng), 1, 0, 300, 9, 0),
+    ] {
+        lines.push(format!("encodingw {cps} {eps} {n} {k} {fsz} {ne} {el} {mt}"));
+    }
+    for (ver, bits, n, np, el, dsz) in [
+        (2u64, 16u64, 100u64, 2u64, 10u64, 0u64),
+        (1, 12, 300, 1, 0, 0),
+        (2, 12, 64 * 255, 1, 0, 0),
+        (2, 12, 64 * 256 + j(rng), 1, 3, 0),
+        (2, 12, 30, 254, 254, 0),
+        (2, 12, 30, 255, 255, 0),
+        (2, 16, 30, 256, 10, 0),
+        (2, 16, 30, 257, 10, 0),
+        (2, 16, 30, 0, 10, 0),
+        (2, 16, 30, 1, 256, 0),
+        (2, 16, 30, 1, 257, 0),
+        (2, 16, 30, 1, 0, 1),
+        (2, 24, 70000, 1, 0, 0),
+        (2, 11, 30, 1, 0, 0),
+        (2, 25, 30, 1, 0, 0),
+        (0, 16, 30, 1, 0, 0),
+        (3, 16, 30, 1, 0, 0),
+    ] {
+        lines.push(format!("parchivew {ver} {bits} {n} {np} {el} {dsz}"));
+    }
+    for (ks, n) in [(16u64, 255u64), (16, 256), (9, 257), (16, 65535), (16, 65536), (1, 65537 + j(rng)), (0, 3)] {
+        lines.push(format!("pindexw {ks} {n}"));
+    }
+    for (ol, nl) in [(255u64, 256u64), (256, 255), (257, 65535), (65535, 65536), (65536, 65537), (65537 + j(rng), 300), (1, 1)] {
+        lines.push(format!("zbsw {ol} {nl} {}", rng.below(4)));
+    }
+    for (nf, nr, seq) in [(3u64, 255u64, 0u64), (3, 256, 255), (255, 3, 256), (256, 3, 65535), (257, 2, 65536), (2, 65535, 4294967295), (2, 65536 + j(rng), 4294967296)] {
+        lines.push(format!("bpsvw {nf} {nr} {seq}"));
+    }
+    for size in [0u64, 1, 255, 256, 1023, 1024, 1025, 65535, 65536, 1_048_575, 1_048_576, 1_048_577, 1_049_600, 4_294_967_295, 4_294_967_296, 1 << 40, (1 << 40) + 1024, u64::MAX, u64::MAX - 1023] {
+        lines.push(format!("especw {size} {} {}", rng.pick(&[0u64, 1, 255, 256, 65536, 4_294_967_295]), rng.below(10)));
+    }
+    for (n, len, z) in [(255u64, 3u64, 0u64), (256, 1, 1), (257, 70, 0), (3, 70000, 1)] {
+        lines.push(format!("archivew {n} {len} {z}"));
+    }
+    for l in lines {
+        cx.run_req(&format!("bp {l}"));
     }
 }
